@@ -160,6 +160,19 @@ def stepMocSetFile (toks : List String) : Option String :=
     | some (some f) => pure (showFile f)
     | some none => pure "nofile"
     | none => none
+  | ["msfk", n128, hist, point] => do
+    -- an `append` (last command of the history) killed at a named point: the stores already performed
+    let n128 ← n128.toNat?
+    let cmds := hist.splitOn "|"
+    let k ← appendPointPrefix point
+    match cmds.getLast?, msfRun n128 cmds.dropLast with
+    | some last, some (some f) =>
+      match last.splitOn ":" with
+      | ["ap", e] => do
+        let e ← parseEntry e
+        pure (showFile (fileAppendPrefix f e k))
+      | _ => none
+    | _, _ => none
   | _ => none
 
 end Drv
